@@ -512,6 +512,7 @@ def correspondence(ctx):
                      "iteration state is local to the generator; the only attribute of the rule object an iteration writes is _len")
         ctx.count("shared_state_sites_new_or_changed", len(new) + len(gone))
         ctx.escalated = True
+        ctx.shared_state_changed = True
     cases = list(WITNESS_CASES) + gen_cases(ctx, "corr", ctx.budget(300, 5000), malformed_rate=0.15)
     cases += ambient_cases(ctx, "corr-ambient", ctx.budget(30, 600))
     reqs_c = ["rrule.construct " + wire(c) for c in cases]
@@ -662,6 +663,12 @@ def sweep_cases(full):
 
 
 def oracle(ctx):
+    if getattr(ctx, "shared_state_changed", False):
+        # the audit found iteration state outside the generator: look for a failing interleaving first
+        interleave_stream(ctx)
+        if len(unknown_violations(ctx)) >= 3:
+            ctx.note("oracle stopped after the interleaved-iterator histories: failing interleavings found")
+            return
     cases = [dict(c) for c in WITNESS_CASES]
     cases += [c for c in getattr(ctx, "corr_bad", [])]          # inputs on which model and implementation differed
     evaluate(ctx, cases)
@@ -675,7 +682,8 @@ def oracle(ctx):
     amb = ambient_cases(ctx, "oracle-ambient", ctx.budget(40, 800))
     ctx.count("oracle_ambient_firstweekday_cases", len(amb))
     evaluate(ctx, amb)
-    interleave_stream(ctx)
+    if not getattr(ctx, "shared_state_changed", False):
+        interleave_stream(ctx)
     rng_cases = gen_cases(ctx, "oracle", ctx.budget(400, 6500))
     for i in range(0, len(rng_cases), 500):
         evaluate(ctx, rng_cases[i:i + 500])
